@@ -220,6 +220,16 @@ func (x *fnCtx) bindType(td *TraceDecl) types.Type {
 }
 
 func (x *fnCtx) findNamedType(name string, ctxPkg string) types.Type {
+	switch name {
+	case "map[string]interface{}":
+		return types.NewMap(types.Typ[types.String], types.NewInterfaceType(nil, nil))
+	case "string":
+		return types.Typ[types.String]
+	case "int":
+		return types.Typ[types.Int]
+	case "bool":
+		return types.Typ[types.Bool]
+	}
 	star := strings.HasPrefix(name, "*")
 	name = strings.TrimPrefix(name, "*")
 	var pkg *types.Package
